@@ -1422,7 +1422,7 @@ class _TextReader:
         token = self.tok.get()
         what = token.value
         if what == "id":
-            self.id = self.tok.get_int()
+            self.id = self.tok.get_uint16()
         elif what == "flags":
             while True:
                 token = self.tok.get()
@@ -1431,7 +1431,7 @@ class _TextReader:
                     break
                 self.flags = self.flags | dns.flags.from_text(token.value)
         elif what == "edns":
-            self.edns = self.tok.get_int()
+            self.edns = self.tok.get_uint8()
             self.ednsflags = self.ednsflags | (self.edns << 16)
         elif what == "eflags":
             if self.edns < 0:
@@ -1443,7 +1443,7 @@ class _TextReader:
                     break
                 self.ednsflags = self.ednsflags | dns.flags.edns_from_text(token.value)
         elif what == "payload":
-            self.payload = self.tok.get_int()
+            self.payload = self.tok.get_uint16()
             if self.edns < 0:
                 self.edns = 0
         elif what == "opcode":
@@ -1515,6 +1515,8 @@ class _TextReader:
         # TTL
         try:
             ttl = int(token.value, 0)
+            if ttl < 0 or ttl > dns.ttl.MAX_TTL:
+                raise dns.exception.SyntaxError("TTL out of range")
             token = self.tok.get()
             if not token.is_identifier():
                 raise dns.exception.SyntaxError
@@ -1621,7 +1623,14 @@ class _TextReader:
                 self.tok.get_eol()
                 continue
             self.tok.unget(token)
-            line_method(section_number)
+            try:
+                line_method(section_number)
+            except dns.exception.DNSException:
+                raise
+            except Exception as e:
+                # e.g. an unknown flag (KeyError) or an out-of-range opcode, rcode,
+                # class or type number (ValueError)
+                raise dns.exception.SyntaxError(f"{type(e).__name__}: {e}") from e
         if not self.message:
             self.message = self._make_message()
         return self.message
